@@ -1,6 +1,7 @@
 package main
 
 import (
+	"crypto/x509"
 	"context"
 	"crypto"
 	"fmt"
@@ -224,6 +225,23 @@ func c01Kind(x *runCtx, ctx context.Context, r *rand.Rand, k lab.Kind, enc proto
 		{what: "61-resigned-by-earlier-owner-key-swapped", proof: func(p *proofTag) bool { resignProof(p, "own2", true); return true }, withheld: true},
 		{what: "61-resigned-by-device-key-swapped", proof: func(p *proofTag) bool { resignProof(p, "dev1", true); return true }, withheld: true},
 		{what: "61-resigned-by-owner-again", proof: func(p *proofTag) bool { resignProof(p, "own1", false); return true }},
+		// a stranger signs 61 and advertises a certificate chain whose leaf is its own certificate and which merely
+		// *contains* the owner's certificate further down: possession of the owner key is not proved
+		{what: "61-resigned-by-stranger-chain-also-carries-owner-certificate", proof: func(p *proofTag) bool {
+			if pkEncOf(p) != protocol.X5ChainKeyEnc {
+				return false
+			}
+			pk, err := protocol.NewPublicKey(k.Type, []*x509.Certificate{lab.OwnerChain(k.PoolKey + "/own3")[0], lab.OwnerChain(k.PoolKey + "/own1")[0]}, false)
+			if err != nil {
+				fatal("impostor chain: %v", err)
+			}
+			p.Unprotected[cose.Label{Int64: 257}] = *pk
+			p.Protected = nil
+			if err := p.Sign(lab.Key(k.PoolKey+"/own3"), nil, nil, signOptsOf(k)); err != nil {
+				fatal("re-sign 61: %v", err)
+			}
+			return true
+		}, withheld: true},
 		// earlier owner presenting the voucher as it held it (one entry): the chain it presents designates it
 		{what: "61-earlier-owner-with-its-shorter-voucher", proof: func(p *proofTag) bool {
 			p.Payload.Val.NumOVEntries = 1
